@@ -86,15 +86,31 @@ def R2_split(run):
     run.check("R2", "protocol-cut-widened", ok, "the fee * rate product is not computed in u128", loc=fn.loc(), detail="(fee as u128) * (rate as u128)")
     fn = facts.need_fn("manager::swap_manager::calculate_fees")
     run.touch(fn)
+    # parameter names by the role of the argument the swap loop passes (robust to renaming / reordering the private helper's parameters)
+    sw_ = facts.need_fn(SL.SWAP)
+    m_ = SL.SwapModel(facts, {})
+    cf_ = calls_to(sw_, ends("calculate_fees"), ctx={}, cut=True)
+    pn = {}
+    if len(cf_) == 1:
+        names_ = fn.param_names()
+        for i_, a_ in enumerate(cf_[0][2]):
+            role_ = "fee" if m_.step_field(a_, "fee_amount") else "rate" if arg_name(a_) == "protocol_fee_rate" else "liq" if m_.is_var(a_, "liquidity") else \
+                "pf" if m_.is_var(a_, "protocol_fee") else "growth" if m_.is_var(a_, "fee_growth_input") else None
+            if role_ and i_ < len(names_):
+                pn[role_] = names_[i_]
+    if set(pn) != {"fee", "rate", "liq", "pf", "growth"}:
+        run.missing("R2", "calculate_fees-parameters", "swap loop does not call calculate_fees with (step fee, protocol rate, liquidity, protocol accumulator, growth accumulator): roles found %s" % sorted(pn), loc=sw_.loc())
+        return
+    P_FEE, P_RATE, P_LIQ, P_PF, P_GROWTH = pn["fee"], pn["rate"], pn["liq"], pn["pf"], pn["growth"]
     ats = A.atoms(fn, {}, cut=True)
     a_rate = a_liq = None
     for at in ats:
         c = at.cond()
         if c:
             for (o, x, y) in ((c[0], c[1], c[2]), (A.SWAP[c[0]], c[2], c[1])):
-                if o == "Gt" and is_param(x, "protocol_fee_rate") and const_val(y) == 0:
+                if o == "Gt" and is_param(x, P_RATE) and const_val(y) == 0:
                     a_rate = at
-                if o == "Gt" and is_param(x, "curr_liquidity") and const_val(y) == 0:
+                if o == "Gt" and is_param(x, P_LIQ) and const_val(y) == 0:
                     a_liq = at
     run.check("R2", "guards", a_rate is not None and a_liq is not None, "calculate_fees lost its `protocol_fee_rate > 0` / `curr_liquidity > 0` guards", loc=fn.loc(), detail="rate > 0, liquidity > 0")
     if a_rate is None or a_liq is None:
@@ -109,34 +125,34 @@ def R2_split(run):
     ok = r is not None and r[0] == "tuple"
     if ok:
         pf, gr = strip(r[1][0]), strip(r[1][1])
-        cut_ok = pf[0] == "call" and pf[1].endswith("wrapping_add") and is_param(pf[2][0], "curr_protocol_fee") and is_call(pf[2][1], "calculate_protocol_fee")
+        cut_ok = pf[0] == "call" and pf[1].endswith("wrapping_add") and is_param(pf[2][0], P_PF) and is_call(pf[2][1], "calculate_protocol_fee")
         if cut_ok:
             cp = strip(pf[2][1])
-            cut_ok = is_param(cp[2][0], "fee_amount") and is_param(cp[2][1], "protocol_fee_rate")
-        g_ok = gr[0] == "call" and gr[1].endswith("wrapping_add") and is_param(gr[2][0], "curr_fee_growth_global_input")
+            cut_ok = is_param(cp[2][0], P_FEE) and is_param(cp[2][1], P_RATE)
+        g_ok = gr[0] == "call" and gr[1].endswith("wrapping_add") and is_param(gr[2][0], P_GROWTH)
         if g_ok:
             dv = strip(gr[2][1])
-            g_ok = dv[0] == "bin" and dv[1] == "Div" and is_param(dv[3], "curr_liquidity")
+            g_ok = dv[0] == "bin" and dv[1] == "Div" and is_param(dv[3], P_LIQ)
             if g_ok:
                 sh_ = strip(dv[2])
                 g_ok = sh_[0] == "bin" and sh_[1] in ("Shl", "ShlUnchecked") and const_val(sh_[3]) == 64
                 if g_ok:
                     net = strip(sh_[2])
-                    g_ok = net[0] == "bin" and net[1] in ("Sub", "SubWithOverflow") and is_param(net[2], "fee_amount") and is_call(net[3], "calculate_protocol_fee")
+                    g_ok = net[0] == "bin" and net[1] in ("Sub", "SubWithOverflow") and is_param(net[2], P_FEE) and is_call(net[3], "calculate_protocol_fee")
         run.check("R2", "protocol-accumulates", cut_ok, "protocol accumulator is not curr_protocol_fee + calculate_protocol_fee(fee_amount, rate): %s" % sh(pf, 120), loc=fn.loc(),
                   detail="next_protocol_fee = curr + cut")
         run.check("R2", "lp-growth", g_ok, "LP growth increment is not ((fee_amount - cut) << 64) / curr_liquidity added to the running growth: %s" % sh(gr, 200), loc=fn.loc(),
                   detail="growth += floor(((fee - cut) << 64) / L)")
     r0 = result([(a_rate, False), (a_liq, False)])
-    ok = r0 is not None and r0[0] == "tuple" and is_param(r0[1][0], "curr_protocol_fee") and is_param(r0[1][1], "curr_fee_growth_global_input")
+    ok = r0 is not None and r0[0] == "tuple" and is_param(r0[1][0], P_PF) and is_param(r0[1][1], P_GROWTH)
     run.check("R2", "zero-rate-zero-liquidity", ok, "with rate == 0 and liquidity == 0 calculate_fees must return its inputs unchanged: %s" % (sh(r0, 100) if r0 else None), loc=fn.loc(),
               detail="unchanged")
     r1 = result([(a_rate, False), (a_liq, True)])
-    ok = r1 is not None and r1[0] == "tuple" and is_param(r1[1][0], "curr_protocol_fee")
+    ok = r1 is not None and r1[0] == "tuple" and is_param(r1[1][0], P_PF)
     if ok:
         gr = strip(r1[1][1])
         dv = strip(gr[2][1]) if gr[0] == "call" and len(gr[2]) == 2 else None
-        ok = dv is not None and dv[0] == "bin" and dv[1] == "Div" and is_param(strip(strip(dv[2])[2]), "fee_amount")
+        ok = dv is not None and dv[0] == "bin" and dv[1] == "Div" and is_param(strip(strip(dv[2])[2]), P_FEE)
     run.check("R2", "zero-rate-all-to-lps", ok, "with rate == 0 the whole fee must accrue to liquidity providers", loc=fn.loc(), detail="growth += (fee << 64) / L")
     # loop wiring
     sw = facts.need_fn(SL.SWAP)
